@@ -702,6 +702,39 @@ func fzJudgeFor(spans []fzSpan, lenFields []int, truncAlways bool) func(kind str
 	}
 }
 
+// fzNegSizeFor: did a same-size mutation alter nothing but the size field of a legacy message, and is
+// that size negative now? Such a length disagrees with the data and has to be reported as an error: the
+// partial-trailing indication (meant for a set cut short by the fetch size) is not an answer to it.
+func fzNegSizeFor(spans []fzSpan) func(kind string, lo, hi int, seed, in []byte) bool {
+	return func(kind string, lo, hi int, seed, in []byte) bool {
+		switch strings.TrimSuffix(kind, "+crc") {
+		case "bit1", "bitN", "len4", "len2", "byte":
+		default:
+			return false
+		}
+		if len(seed) != len(in) {
+			return false
+		}
+		field := -1
+		for i := lo; i < hi && i < len(in); i++ {
+			if in[i] == seed[i] {
+				continue
+			}
+			hit := -1
+			for _, sp := range spans {
+				if sp.ieee && i >= sp.lenPos && i < sp.lenPos+4 {
+					hit = sp.lenPos
+				}
+			}
+			if hit < 0 || (field >= 0 && hit != field) {
+				return false
+			}
+			field = hit
+		}
+		return field >= 0 && field+4 <= len(in) && int32(binary.BigEndian.Uint32(in[field:])) < 0
+	}
+}
+
 // ---------------------------------------------------------------- fetch responses with nested records
 
 func (st *fzState) fetchSpans(sd []byte) (spans []fzSpan, lenFields []int) {
@@ -728,6 +761,7 @@ func (st *fzState) fetchJudge(sd []byte) {
 	}
 	st.origCanon = fzCanon(o.val)
 	st.judge = fzJudgeFor(spans, lenFields, true)
+	st.negSize = fzNegSizeFor(spans)
 	st.tailDropIsPartial = true
 	st.obs["seeds_with_records"]++
 }
@@ -1016,6 +1050,7 @@ func (st *fzState) runRec() {
 		}
 		st.origCanon = fzCanon(o.val)
 		st.judge = fzJudgeFor(spans, nil, false)
+		st.negSize = fzNegSizeFor(spans)
 		st.mutate(sd.b, rng)
 		st.judge = nil
 
